@@ -387,6 +387,30 @@ def gen_ib(rng, tier, nmax=6):
             "ops": ops, "perms": "all", "seed": rng.getrandbits(32)}
 
 
+def gen_swap(rng, rt):
+    """policy swapped for another kind filter while envelopes are pending: every (old, new) relation - subset, superset,
+    equal size with a dropped kind, larger with a dropped kind, disjoint - must evict exactly the envelopes the new filter rejects"""
+    kinds = [0x11, 0x12, rng.getrandbits(256), M256]
+    old = sorted(rng.sample(kinds, rng.randint(1, 3)))
+    new = sorted(rng.sample(kinds, rng.randint(0, 4)))
+    intents = []
+    for _ in range(rng.randint(2, 5)):
+        k = rng.choice(old) if rng.random() < 0.85 else rng.choice(kinds)
+        intents.append((k, [rng.randint(0, 255) for _ in range(rng.choice([1, 2, 3]))], [], ("d", 1) if not rt else ("x", 1, 0xa)))
+    ops = [("s", i) for i in range(len(intents))]
+    rng.shuffle(ops)
+    if rng.random() < 0.3:
+        ops.insert(rng.randint(0, len(ops)), ("p",))
+    ops.append(("q", 0, ("kf", new)))
+    if rng.random() < 0.5:      # retries after the swap, and a second swap back
+        ops += [("s", rng.randrange(len(intents))) for _ in range(rng.randint(1, 2))]
+        if rng.random() < 0.5:
+            ops.append(("q", 0, ("kf", old)))
+    ops.append(("p",))
+    return {"mode": "rt" if rt else "ib", "worlds": [1], "heads": [(1, 0xa, list(b"a") if rt else None, True, ("kf", old))],
+            "intents": intents, "ops": ops, "perms": "12" if rt else "all", "seed": rng.getrandbits(32)}
+
+
 def gen_exhaustive(rng, n, npass, pol):
     """all interleavings of `npass` passes with n submissions of n distinct intents (one head),
     the harness adds every arrival order inside each window."""
@@ -547,6 +571,8 @@ def run(tier, seed, replay=None):
             cases.append(gen_rt(r.rng, tier))
         for i in range(nib):
             cases.append(gen_ib(r.rng, tier))
+        for i in range(24 if tier == "quick" else 400):
+            cases.append(gen_swap(r.rng, i % 3 == 0))
         for i in range(nrs):
             rcases.append(gen_restart(r.rng, tier, 1 if i % 4 else 0))
         pols = [("all",), ("b", 0), ("b", 1), ("b", 2), ("kf", [0x11])]
